@@ -165,7 +165,11 @@ func (f *Frame) safe(kind, goal, desc string, p token.Pos) {
 		}
 	}
 	f.done[goal] = append(f.done[goal], f.curB)
-	f.oblige(kind, goal, desc, p, nil, f.vc.safety)
+	claimed := f.vc.safety
+	if claimed && f.vc.contract != nil && f.vc.contract.SafeKinds != nil {
+		claimed = f.vc.contract.SafeKinds[kind] && f.top
+	}
+	f.oblige(kind, goal, desc, p, nil, claimed)
 }
 
 func (f *Frame) frontier() string { return f.vc.he.get(f.cur, "ALLOC", "Int") }
